@@ -132,6 +132,7 @@ class RemoteWorker(Worker, metaclass=RemoteWorkerMeta):
         self._payload = None
         self._context = context
         self._remote_dead = False
+        self._final_user_state = None # (state, ) received from the child at the end of its life
         self._reset_sigterm_hnd = False # reset SIGTERM handler in the child process
         self._main_path = main_path
         if context is not None:
@@ -360,6 +361,12 @@ class RemoteWorker(Worker, metaclass=RemoteWorkerMeta):
             return not alive
 
     def _get_result(self):
+        if self._final_user_state is not None and not self.is_remote_side and not self.is_child:
+            # the child's final user state has arrived: take it over once the worker no longer counts as
+            # alive - until then the parent keeps seeing the initial state
+            if self._dead or not self.is_alive():
+                self._user_state = self._final_user_state[0]
+                self._final_user_state = None
         return self._result
 
     #
@@ -428,7 +435,7 @@ class RemoteWorker(Worker, metaclass=RemoteWorkerMeta):
             logger.debug('Connection to the child has been closed before receiving the result', exc_info=1)
         else:
             try:
-                self._user_state = recv_msg(self._socket, comment='data: user state')
+                self._final_user_state = (recv_msg(self._socket, comment='data: user state'), )
                 logger.debug('User state received')
             except Exception:
                 logger.debug('User state could not be received', exc_info=1)
